@@ -110,6 +110,79 @@ def cli_inputs(ctx: Ctx, mix_inputs, n_cfg):
     return out
 
 
+EXTRA_N = (0, 1, 2, 3, 12)
+
+
+def composition_tables(full_tables):
+    """Tables that lack one or both sex chromosomes (the X/Y labels of a table are derived from its rows):
+    per configuration one of {Y rows only, autosome + Y, X rows only, autosome + X} in rotation (n in EXTRA_N), plus
+    a single-row chrY table and a single-row chrX table."""
+    out = []
+    for k, t in enumerate(full_tables):
+        kinds = (("Y",), ("1", "Y"), ("X",), ("1", "X"))[k % 4]
+        rows = [r for r in t["rows"] if (r[K.BASE] in kinds or (r[K.BASE].isdigit() and "1" in kinds))
+                and r[K.N] in EXTRA_N]
+        singles = []
+        for base in ("Y", "X"):
+            cand = [r for r in t["rows"] if r[K.BASE] == base and r[K.N] == 1 + k % 12]
+            if cand:
+                singles.append([cand[(k // 4) % len(cand)]])
+        for rr in [rows] + singles:
+            if rr:
+                b = {kk: t[kk] for kk in K.INPUT_KEYS if kk != "rows"}
+                b["rows"] = rr
+                b["fpfx"] = rr[0][K.PFX]
+                out.append(b)
+    return out
+
+
+def _pclass(base, s, e, genome):
+    if base not in ("X", "Y"):
+        return "auto"
+    if genome != "none" and any(s >= lo and e <= hi for lo, hi in PAR[genome][base]):
+        return "PAR" + base
+    return base
+
+
+def random_mix_inputs(ctx: Ctx, n_tables):
+    """direction 2 for the mixing-model clauses: random configuration, random subset of chromosome kinds (tables
+    with and without chrX / chrY rows), random real PAR-related coordinates, n drawn in 0..12; the log2 is
+    generated from the mixing model (the spec re-checks that as a premise, row by row)."""
+    rng = ctx.rng
+    out = []
+    for _ in range(n_tables):
+        pfx = rng.choice(["chr", ""])
+        genome = rng.choice(["none", "grch37", "grch38"])
+        pd = rng.choice([2, 3, 10, 100])
+        pn = rng.choice([pd, rng.randint(1, pd), rng.randint(1, pd)])
+        ploidy, hapx, female = rng.randint(1, 6), rng.random() < 0.5, rng.random() < 0.5
+        kinds = rng.choice([("auto", "X", "Y"), ("auto", "Y"), ("Y",), ("auto", "X"), ("X",), ("X", "Y")])
+        rows = []
+        for _k in range(rng.choice([1, 2, 6, 20])):
+            kind = rng.choice(kinds)
+            for _try in range(20):
+                base, s, e = _rand_locus(rng, genome)
+                if (base if base in ("X", "Y") else "auto") == kind:
+                    break
+            else:
+                continue
+            cls = _pclass(base, s, e, genome if pn < pd else "none")
+            half = ploidy // 2
+            rc = {"auto": ploidy, "PARX": ploidy, "X": half if hapx else ploidy, "Y": half, "PARY": 0}[cls]
+            x = {"auto": ploidy, "PARX": ploidy, "X": ploidy if female else half, "Y": 0 if female else half,
+                 "PARY": 0}[cls]
+            n = rng.randint(0, 12)
+            num = pn * n + (pd - pn) * x
+            q = (num, pd * rc, 0) if rc and num else (1, 1, 0)
+            rows.append(K.mkrow(pfx, base, s, e, q, n=n))
+        if not rows:
+            continue
+        rows.sort(key=K.row_sort_key)
+        out.append({"op": "clonal_mix", "ploidy": ploidy, "pn": pn, "pd": pd, "hapx": hapx, "female": female,
+                    "genome": genome, "fpfx": pfx, "vmode": "none", "U": [], "rows": rows})
+    return out
+
+
 def _bump_boundaries(ctx, rec, row):
     pn, pd = rec["pn"], rec["pd"]
     if rec["op"] in ("clonal_mix", "clonal_mix_cli"):
@@ -136,8 +209,11 @@ def run(ctx: Ctx):
     thorough = ctx.tier == "thorough"
     ctx.rule = ("direction 1: every state of MC_Calling (ops clonal_mix, clonal_pure, clonal_any: one segment row under "
                 "one configuration) executed by the real do_call -- the rows of a configuration form one table = one "
-                "call; every row is judged (mixing-model rows grouped per locus into one record, all others one record "
-                "per row); direction 2: seeded random real log2 in [-30,30] x random configuration (tables of 1..40 "
+                "call, plus per configuration a table without chrX or without chrY rows and single-row chrY / chrX tables; "
+                "tables are built fresh by rotating construction routes (fresh / boolean-masked / permuted / offset row "
+                "index); every row is judged (mixing-model rows grouped per locus into one record, all others one record "
+                "per row); direction 2: seeded random mixing-model tables (random chromosome subsets, PAR-related "
+                "coordinates, n 0..12), seeded random real log2 in [-30,30] x random configuration (tables of 1..40 "
                 "rows, judged row by row), and `cnvkit.py call -m clonal` through parse_args/_cmd_call and files for a "
                 "seeded sample of enumerated configurations. A case is distinct by (op, configuration, rows); "
                 "non-trivial when the premise holds.")
@@ -150,7 +226,10 @@ def run(ctx: Ctx):
         ops=["clonal_mix"], nmax=12, purity_idx=purities, ploidies=range(1, 7), genos=("none", "grch37", "grch38"),
         locus_idx=all_loci))
     r, mix_inputs = K.mc_inputs(ctx, cfg, tag="mix")
-    mix_rows = _flatten(ctx.execute(K.execute_split, K.batch_inputs(mix_inputs)))
+    full = K.batch_inputs(mix_inputs)
+    tables = K.assign_routes(full + composition_tables(full))
+    mix_rows = _flatten(ctx.execute(K.execute_split, tables))
+    ctx.notes["mix_tables"] = {"full": len(full), "partial_composition": len(tables) - len(full)}
     # all n >= 1 of one locus under one configuration form one record, n = 0 (ratio 0 when x = 0 or p = 1) another
     mix = K.merge_rows(mix_rows, lambda row: (row[K.BASE], row[K.S], row[K.E], row[K.N] == 0))
     ctx.notes["scope_mix"] = {"tlc_states": r.distinct, "replayed_states": len(mix_inputs), "records": len(mix),
@@ -160,7 +239,7 @@ def run(ctx: Ctx):
     cfg = ctx.cfg("mc-pure", spec="Spec", invariants=["DesignOK"], constants=K.mc_constants(
         ops=["clonal_pure"], ploidies=range(1, 7)))
     r, pure_inputs = K.mc_inputs(ctx, cfg, tag="pure")
-    pure = _flatten(ctx.execute(K.execute_split, K.batch_inputs(pure_inputs)))
+    pure = _flatten(ctx.execute(K.execute_split, K.assign_routes(K.batch_inputs(pure_inputs), 1)))
     ctx.notes["scope_pure"] = {"tlc_states": r.distinct, "replayed_states": len(pure_inputs), "records": len(pure)}
     records += pure
     # ---- direction 1: arbitrary ratios on a small grid (no design invariant here: see below)
@@ -168,7 +247,7 @@ def run(ctx: Ctx):
                                 genos=("none", "grch38"), locus_idx=(1, 2, 3, 8, 10))
     cfg = ctx.cfg("mc-any", spec="Spec", constants=any_consts)
     r, any_inputs = K.mc_inputs(ctx, cfg, tag="any")
-    anyr = _flatten(ctx.execute(K.execute_split, K.batch_inputs(any_inputs)))
+    anyr = _flatten(ctx.execute(K.execute_split, K.assign_routes(K.batch_inputs(any_inputs), 2)))
     ctx.notes["scope_any"] = {"tlc_states": r.distinct, "replayed_states": len(any_inputs), "records": len(anyr)}
     records += anyr
     # design level: does the algorithm as modelled keep cn >= 0?  (TLC stops at the first counterexample, so
@@ -183,7 +262,11 @@ def run(ctx: Ctx):
                       "either side of every rounding boundary for r = 1..6); 8 arbitrary ratios 2^-10..2^10 x purity "
                       "{none, 1/10, 1/2, 1, 1/3, 99/100} -- every dumped state replayed")
     # ---- direction 2
-    rnd_tables = ctx.execute(K.execute, random_any_inputs(ctx, 6000 if thorough else 600))
+    rmix_tables = ctx.execute(K.execute, K.assign_routes(random_mix_inputs(ctx, 4000 if thorough else 400), 3))
+    rmix = [x for t in rmix_tables for x in K.split_record(t)]
+    records += rmix
+    ctx.bump("random_mixing_model_rows", len(rmix))
+    rnd_tables = ctx.execute(K.execute, K.assign_routes(random_any_inputs(ctx, 6000 if thorough else 600)))
     rnd = [x for t in rnd_tables for x in K.split_record(t)]     # row by row: a known finding on one row must
     records += rnd                                               # not hide another row's verdict
     ctx.bump("random_real_log2_rows", sum(len(x["rows"]) for x in rnd))
@@ -195,10 +278,18 @@ def run(ctx: Ctx):
         ctx.sample(rec)
     verdicts = K.validate_fast(ctx, TRACE, records)
     for rec, v in zip(records, verdicts):
-        ctx.count_input([rec["op"], K.batch_key(rec), rec["rows"]], nontrivial=v["scope"])
+        ctx.count_input([rec["op"], K.batch_key(rec), rec.get("route"), rec["nin"], rec["rows"]], nontrivial=v["scope"])
         if v["scope"]:
             for row in rec["rows"]:
                 _bump_boundaries(ctx, rec, row)
+            ctx.bump("judged_records_route_" + rec.get("route", "fresh"))
+    for t in tables + rmix_tables:
+        bases = {r[K.BASE] for r in t["rows"]}
+        if 0 < t["pn"] < t["pd"]:
+            if "Y" in bases and "X" not in bases:
+                ctx.bump("tables_purity_below_1_with_Y_without_X" + ("_single_row" if len(t["rows"]) == 1 else ""))
+            if "X" in bases and "Y" not in bases:
+                ctx.bump("tables_purity_below_1_with_X_without_Y" + ("_single_row" if len(t["rows"]) == 1 else ""))
     ctx.notes["rows_judged"] = sum(len(r["rows"]) for r, v in zip(records, verdicts) if v["scope"])
     ctx.notes["rows_out_of_scope"] = sum(len(r["rows"]) for r, v in zip(records, verdicts) if not v["scope"])
     ctx.trusted_base = ["TLC 1.8 evaluation of spec/Calling.tla, spec/Karyotype.tla (incl. its base-10^4 limb arithmetic)",
@@ -208,7 +299,8 @@ def run(ctx: Ctx):
     ctx.assumptions = ["one naming style per table; r > 0 and ratio > 0 for the mixing-model clauses (other states are "
                        "counted out_of_scope)",
                        "the diploid-PAR genome is only claimed on the purity < 1 path (the only path taking that option)",
-                       "rows of one configuration are executed as one table and judged row by row"]
+                       "rows of one configuration are executed as one table and judged row by row; every table is built "
+                       "fresh (no cached X/Y label) by one of the routes fresh / masked / permuted / offset row index"]
 
 
 def replay(ctx, doc):
